@@ -137,6 +137,12 @@ Definition validate (s : st) (k : regkey) : st :=
   | Some _ => set_decoys s1 (put2 (decoys s1) (k_ph k) (ident_of k) true)
   end.
 
+(* register called with an object that is NOT the tracked one (its own entry was swept while it was
+   still being ingested, or it is a duplicate): "if reg != d { return nil }" - only an untracked
+   registration is tracked and marked valid *)
+Definition validate_stale (s : st) (k : regkey) : st :=
+  match registration_exists s k with Some _ => s | None => validate s k end.
+
 (* markActive *)
 Definition mark_active (s : st) (k : regkey) : st :=
   if enabled (k_tr k) then
@@ -192,7 +198,8 @@ Definition nphantoms (s : st) : nat := length (decoys s).
 Inductive rop :=
 | Track (k : regkey)          (* RegistrationManager.TrackRegistration *)
 | TrackNX (k : regkey)        (* TrackRegIfNotExists *)
-| Validate (k : regkey)       (* AddRegistration *)
+| Validate (k : regkey)       (* AddRegistration with the object that is tracked (or none is) *)
+| ValidateStale (k : regkey)  (* AddRegistration with another object than the tracked one *)
 | MarkActive (k : regkey)     (* MarkActive: a connection matched this registration *)
 | Advance (ns : N)            (* time passes *)
 | Sweep                       (* RemoveOldRegistrations *)
@@ -203,6 +210,7 @@ Definition step (s : st) (o : rop) : st :=
   match o with
   | Track k | TrackNX k => fst (track s k)
   | Validate k => validate s k
+  | ValidateStale k => validate_stale s k
   | MarkActive k => mark_active s k
   | Advance d => {| decoys := decoys s; timeouts := timeouts s; now := now s + d; panicked := panicked s |}
   | Sweep => sweep s
@@ -255,13 +263,13 @@ Definition kept (a : N) (u : bool) : bool := (a <=? ten_min) || (u && (a <=? six
 
 Definition starts (o : rop) (k : regkey) : bool :=
   match o with
-  | Track k' | TrackNX k' | Validate k' => regkey_eqb k k' && enabled (k_tr k)
+  | Track k' | TrackNX k' | Validate k' | ValidateStale k' => regkey_eqb k k' && enabled (k_tr k)
   | _ => false
   end.
 
 Definition gstep (k : regkey) (l : life) (o : rop) : life :=
   match o with
-  | Track _ | TrackNX _ | Validate _ =>
+  | Track _ | TrackNX _ | Validate _ | ValidateStale _ =>
       if starts o k then match l with None => Some (0, false) | Some _ => l end else l
   | MarkActive k' =>
       if regkey_eqb k k' then match l with Some (a, _) => Some (a, true) | None => None end else l
@@ -286,7 +294,7 @@ Fixpoint starts_within_rev (lim : N) (el : N) (rh : list rop) : list tkey :=
   match rh with
   | [] => []
   | Advance d :: r => starts_within_rev lim (el + d) r
-  | (Track k | TrackNX k | Validate k) :: r =>
+  | (Track k | TrackNX k | Validate k | ValidateStale k) :: r =>
       if enabled (k_tr k) && (el <=? lim) then tkey_of k :: starts_within_rev lim el r
       else starts_within_rev lim el r
   | _ :: r => starts_within_rev lim el r
@@ -294,4 +302,4 @@ Fixpoint starts_within_rev (lim : N) (el : N) (rh : list rop) : list tkey :=
 Definition starts_within (lim : N) (h : list rop) : list tkey := starts_within_rev lim 0 (rev h).
 
 Definition is_start (o : rop) : bool :=
-  match o with Track _ | TrackNX _ | Validate _ => true | _ => false end.
+  match o with Track _ | TrackNX _ | Validate _ | ValidateStale _ => true | _ => false end.
